@@ -124,5 +124,52 @@ PROPS = {
                      "mirror relation negates whole states (position, velocity and acceleration) and is checked only for non-zero displacement (sign tie-break at dp=0 is legitimate)",
                      "arrival is decided on the reference trajectory evaluated at the recovered t3 against the end state"],
     ),
+    "C02": dict(
+        run=native, level=EXPL, technique="exhaustive shape enumeration with random payloads; bit-exact doc-derived oracle per combinator; cross-checks Sum2 vs SumStream<2>, Product2 vs ProductStream<2>, De Morgan both directions, purity over three reads; panic capture",
+        rule="for each of the 16 combinators every shape is enumerated completely: outcome code of every input (Err(1), Err(2), None, Some; booleans Some(false)/Some(true)) x every weak ordering < = > of the present inputs' timestamps, arities 1..=5 of SumStream/ProductStream/Latest, payloads f32 and Quantity; Expirer adds clock state x age-vs-limit < = > x 4 limit strata, NoneToValue clock state x clock-vs-input order; each shape gets random finite values per (seed, sub, case) and get() is called three times; distinct = (combinator, payload, outcome vector, timestamp-order class)",
+        assumptions=["errors dominate everywhere except Latest, earliest input first; the time getter counts as the last input",
+                     "both readings accepted where the docs are silent: Expirer(None input, clock Err) may be None or that error; NoneToValue(Some input, clock Err) may be the input or that error; Latest ties accept any maximal-stamp input",
+                     "ExponentStream value compared bit-exact against a second ExponentStream on constant getters (same powf) plus a loose f64 cross-check",
+                     "Expirer times kept below 2^61 (the crate subtracts them); i64 extremes only where stamps are merely compared"],
+    ),
+    "C03": dict(
+        run=native, level=EXPL, technique="exhaustive enumeration over anchor timestamp pairs x operator form x payload plus stratified random; integer max/argmax oracle; bit-identity for selections; before/after terminal snapshots for devices; panic capture",
+        rule="every Datum operator impl in src/datum.rs over all 15x15 ordered pairs of anchor stamps {i64::MIN, MIN+1, -2^62-1, -2^62, -1e9-7, -2,-1,0,1,2, 1e9+7, 2^62, 2^62+1, MAX-1, MAX} and random stratified pairs, 5 payload types; latest() and the three replace helpers on the same pairs x slot {empty,full} x candidate {Some,None}; Latest arity 1-5 and SumStream/ProductStream arity 1-4 over every assignment of {absent, rank 1..n}; all two-input streams x 4 presence masks; terminals 16 own/partner presences x connected/unconnected x 11x11 moderate stamp pairs; one update() of each of 12 devices with distinct stamps on every slot; distinct = (site/operator form, payload, stratum of each stamp, order class)",
+        assumptions=["the crate only compares timestamps on these paths; terminal/device stamps stay within |t| <= 2^40+3",
+                     "ties accept either candidate; candidates have pairwise distinct payload bits (except bool)",
+                     "command propagation through devices is judged only on own command slots that changed during update(); untouched terminals are not constrained",
+                     "Getter<TerminalData> (combined read) is stamped with the state's time by design (C09 statement), so it is only required to carry one of the part stamps here"],
+    ),
+    "C09": dict(
+        run=native, level="fault_enumeration", technique="model-based runtime monitor: partner relation rebuilt from terminal reads alone (twice: from state reads of power-of-two labels and from command reads) and compared with a set-of-pairs model; exhaustive BFS over reachable matchings x operations under panic capture; f64 reference for the read semantics",
+        level_text="Every reachable link state of 2..6 terminals x every connect/disconnect operation is enumerated (breadth-first) and executed on fresh terminals under panic capture, so the operation-sequence part of the quantifier is covered completely up to n=6; the value/timestamp part is sampled. Still only 'held on what was executed'.",
+        rule="exhaustive BFS: for n = 2..=6 every one of the 2/4/10/26/76 matchings x every connect(i,j), i!=j, and disconnect(i) x labels written first or last, each edge replayed on fresh terminals; plus random walks of 64 steps on 2..6 terminals and random read-semantics histories of 8..20 steps (set-state, set-command, connect, disconnect) with all three reads of every terminal checked after every step; distinct = (n, matching, operation, variant) / (n, pre-matching, op) / structural shape of the history",
+        assumptions=["connect(a,a) is never issued (outside the property)",
+                     "state components finite with exponent headroom so the sum of two is finite; stamps are only compared",
+                     "'latest' state/command of a terminal = the last set call; command ties may return either side",
+                     "combined read is checked against the same terminal's own state and command reads taken just before; both Datum.time and TerminalData.time must carry the state's stamp when there is one"],
+    ),
+    "C14": dict(
+        run=native, level=EXPL, technique="f64 reference with forward error bound for the kinematics; exact canonical-bit comparison against plain f32 operators for arithmetic and conversions; exhaustive enumeration of unit, zero-pattern and kind-pair tables; panic capture for the iff-panic clauses",
+        rule="eight sub-checks, each case a pure function of (seed, stream, case): update (states with 20% +-0 per component, moderate and wide magnitudes, dt stratified in +-1e5 s incl. 0, +-1 ns), update-extreme (any finite triple), setters (49 grid units x 3 Quantity setters + raw setters), state-new (3 slots x 49 units), from-state (all 4^3 patterns of {+0,-0,>0,<0}), cmd-conv, state-arith, cmd-arith (3x3 kind pairs x 9 operator forms); distinct by (sub-check, zero/sign pattern, sign and decade of dt, unit, kind pair)",
+        assumptions=["dimension checking compiled in (debug build)",
+                     "kinematics reference judged with bound 32*2^-24*sum|terms| plus the i64-ns -> f32-seconds conversion rounding; dt = 0 is the identity on canonical bits (-0 == +0)",
+                     "'lowest non-zero derivative' follows the crate's tests and accessor table: acceleration if non-zero, else velocity if non-zero, else position",
+                     "in update-extreme (any finite triple) a non-finite result where the true result is representable is a violation; the overflow of intermediates when some term exceeds 1e37 is a listed known finding"],
+    ),
+    "C15": dict(
+        run=native, level=EXPL, technique="model-based random operation sequences against an exact executable model; scripted recording history; fault-injecting getters, clocks and settable; panic capture",
+        rule="three sub-checks: seq (operation sequences <=40 over a recording settable with scripted accept/reject, two scripted getters, a ConstantGetter that is settable/following/followable, four clock kinds), hist (GetterFromHistory over a scripted history recording every queried time, four constructors by quota, three clock kinds, <=40 ops from {get, clock advance/jump/error, set_delta, set_time, update with scripted errors}), adapters (Time as TimeGetter, NoneGetter, TimeGetterFromGetter, ConstantGetter); after every operation result, get_last_request, the impl_set log, get() and the history's query log are compared exactly with the model; distinct = (previous op, op, following state, followed-getter category) / (constructor, clock kind, op bigram, offset class) / event bigrams",
+        assumptions=["in hist all clock values, starts, deltas and set_time targets satisfy |x| <= 2^60 so nothing overflows",
+                     "a settable whose update() does not call update_following_data forwards nothing on update()",
+                     "when the history's own update fails only 'history called once, first' is required (statement silent on the time getter then)"],
+    ),
+    "C18": dict(
+        run=native, level=EXPL, technique="exact i128 integer oracle; exact f64 rational references for the conversions with the statement's own bounds; non-decreasing chains for monotonicity; differential check of the mixed operators against Quantity operators on Quantity::from-converted operands with panic capture on both sides",
+        rule="seeded generators: i64 operands over bit-lengths 0..62 x sign (plus values next to k*2^24, f32 midpoints, 2^k, whole seconds) with operand pairs built so the i64 result exists; f32 seconds |x| < 9e9 stratified by exponent; 49 grid units x 27 mixed operator cells; exhaustive: |ns| <= 2^16 and +-(2^k+{-1,0,1}) for Time->Quantity, 49 units x try_from, 49 units x 27 mixed cells; distinct = (sub-check or operator group, magnitude stratum and sign of each operand, unit)",
+        assumptions=["debug build with dimension checking and overflow checks on; overflow and division by zero are outside the property",
+                     "'within 2 ulps' accepts either reading (distance to the correctly rounded f32, or real error); truncation and rounding both accepted for Quantity->Time",
+                     "DimensionlessInteger<->Quantity value checks are lenient (statement only loosely covers them)"],
+    ),
 }
 NOT_APPLICABLE = {}
